@@ -293,3 +293,49 @@ def command_methods(run, pc):
            "_known_is_live_view": kc[0] == "view" and kc[1] == st["_mappings"][0]}
     run._cm[key] = res
     return res
+
+
+def fold_local(run, PV, fn, cls, expr, at, depth=0):
+    """Fold expr to a constant, following local names with a single reaching definition. -> (ok, value)"""
+    from sa.query import try_fold
+    if not (isinstance(expr, ast.Name) and expr.id in PV.defs(fn, cls)):
+        ok, v = try_fold(run.P, expr, fn, cls)
+        if ok:
+            return True, v
+    if isinstance(expr, ast.Name) and depth < 6:
+        rds = PV.reaching(fn, cls, expr.id, at)
+        if len(rds) == 1 and rds[0].kind == "assign" and rds[0].value is not None:
+            return fold_local(run, PV, fn, cls, rds[0].value, rds[0].cnode, depth + 1)
+    return False, None
+
+
+def answer_field(run, PV, fn, cls, expr, at, depth=0, ignore_const_defs=False):
+    """Is expr (at CFG node `at`) a subscript chain over the result of a call, possibly through local names with a
+    single reaching definition?  -> (call AST, [folded index | ('slice', lo, hi)] outermost last) or (None, reason)."""
+    from sa.query import try_fold
+    idx = []
+    e, node = expr, at
+    for _ in range(12):
+        if isinstance(e, ast.Name):
+            rds = PV.reaching(fn, cls, e.id, node)
+            if ignore_const_defs:
+                # e.g. `x = None` before a loop: irrelevant under a fact that equates x with a device constant
+                rds = [d for d in rds if not (d.kind == "assign" and isinstance(d.value, ast.Constant))]
+            if len(rds) != 1 or rds[0].value is None or rds[0].kind not in ("assign", "with"):
+                return None, f"`{e.id}` has {len(rds)} reaching definitions"
+            e, node = rds[0].value, rds[0].cnode
+            continue
+        if isinstance(e, ast.Subscript):
+            if isinstance(e.slice, ast.Slice):
+                lo = try_fold(run.P, e.slice.lower, fn, cls)[1] if e.slice.lower is not None else None
+                hi = try_fold(run.P, e.slice.upper, fn, cls)[1] if e.slice.upper is not None else None
+                idx.insert(0, ("slice", lo, hi))
+            else:
+                ok, v = try_fold(run.P, e.slice, fn, cls)
+                idx.insert(0, v if ok else ("?", norm(e.slice)))
+            e = e.value
+            continue
+        break
+    if isinstance(e, ast.Call):
+        return e, idx
+    return None, f"it is `{norm(e)[:50]}`"
